@@ -11,7 +11,10 @@ DESIGN_REF = "DESIGN.md §5 C03"
 MODULE = "Phil.Props.C03"
 RULE = ("strings over the 12 tokenizer character classes (plus 9 exotic characters CR TAB VT FF NEL LS NUL SUB BOM in a second bounded-exhaustive tier) {' \" \\ newline blank $ # { } ; = ordinary}: "
         "bounded-exhaustive up to a length bound, random beyond, x 4 quote styles x {value literal, definition in a "
-        "document}; a case is non-trivial when the string is non-empty; distinct = distinct (string, style)")
+        "document}; a case is non-trivial when the string is non-empty; distinct = distinct (string, style); plus an impl-only "
+        "stream of operation sequences: batches of (style, string) evaluated 2-4 times in one process through word_iterator / "
+        "tokenize_value_literal (3 source_info values) / parse, every returned word edited in place (value, quote_token) between "
+        "the evaluations - a later tokenization of the same text must still return the original string and style")
 ASSUMPTIONS = ["str.replace / str.join of CPython", "isspace table validated separately (C02 thorough)"]
 CLASSES = ["'", '"', "\\", "\n", " ", "$", "#", "{", "}", ";", "=", "a"]
 STYLES = ["'", '"', "'''", '"""']
@@ -76,7 +79,141 @@ def strings(ctx):
         yield "".join(rng.choice(alphabet) for _ in range(rng.randint(0, k))), True
 
 
+# ---- repeated evaluation with in-place edits of the words handed out (impl-only stream) -------------------------------------
+# The property quantifies over every string, hence also over every string that was ALREADY tokenized earlier in the process:
+# tokenization must be a function of the text alone. A word returned by an entry point is the caller's own object
+# (word.value / word.quote_token are plain public attributes; parser.py itself rewrites word.value in place), so the stream
+# evaluates the property for a batch of (style, string), edits every returned word in place, and evaluates the same batch
+# again - through every tokenizing entry point and with several source_info values. The Lean model is a pure function of the
+# text and has no notion of object identity, so these sequences go to the oracle only (counted as impl_only_repeat_*).
+SOURCE_INFOS = [None, "cmdline", "file.phil"]
+
+
+def _ed_value(w, i):
+    w.value = "checked: " + w.value
+
+
+def _ed_lead(w, i):  # what parser.py does to a lead word (drops the first character)
+    w.value = w.value[1:]
+
+
+def _ed_empty(w, i):
+    w.value = ""
+
+
+def _ed_quote(w, i):
+    w.quote_token = STYLES[(STYLES.index(w.quote_token) + 1 + i % 3) % 4] if w.quote_token in STYLES else "'"
+
+
+def _ed_unquote(w, i):
+    w.quote_token = None
+
+
+def _ed_both(w, i):
+    _ed_quote(w, i)
+    w.value = w.value + "\\'\"\n"
+
+
+EDITS = {"value": _ed_value, "lead": _ed_lead, "empty": _ed_empty, "quote": _ed_quote, "unquote": _ed_unquote, "both": _ed_both}
+
+
+def entries(quoted, source_info):
+    """every tokenizing entry point on the quoted text: (name, thunk giving (words of the quoted text, all words handed out))"""
+    def wi():
+        ws = list(tokenizer.word_iterator(input_string=quoted))
+        return ws, ws
+
+    def tokv():
+        ws = freephil.tokenize_value_literal(input_string=quoted, source_info=source_info)
+        return ws, ws
+
+    def doc():
+        objs = freephil.parse(input_string="a = " + quoted + "\nb = 1", source_info=source_info).objects
+        got = [(o.name, [(w.value, w.quote_token) for w in o.words]) for o in objs]
+        if [n for n, _ in got] != ["a", "b"] or got[1][1] != [("1", None)]:
+            raise AssertionError("document parsed to %r" % (got,))
+        return objs[0].words, [w for o in objs for w in o.words]
+    return [("word_iterator", wi), ("tokenize_value_literal", tokv), ("parse", doc)]
+
+
+def evaluate_once(q, s, source_info, handed_out):
+    """the property as stated for one (style, string) through every entry point; returns failure text or None"""
+    quoted = tokenizer.quote_python_str(quote_token=q, string=s)
+    for name, thunk in entries(quoted, source_info):
+        try:
+            ws, every = thunk()
+        except Exception as e:
+            return "%s raised %s: %s" % (name, type(e).__name__, e)
+        handed_out.extend(every)
+        if len(ws) != 1 or ws[0].value != s or ws[0].quote_token != q:
+            return "%s gave %r, required [(%r, %r)]" % (name, [(w.value, w.quote_token) for w in ws], s, q)
+        if str(ws[0]) != quoted:
+            return "%s: str(word) = %r differs from quoted text %r" % (name, str(ws[0]), quoted)
+    return None
+
+
+def observe_repeated(items, edits, source_info):
+    """evaluate the batch, then for each edit: apply it in place to every word handed out by the previous evaluation and
+    evaluate the batch again. Returns (index of the failing item, round, failure text) or None"""
+    handed_out = []
+    for r in range(len(edits) + 1):
+        if r > 0:
+            for i, w in enumerate(handed_out):
+                EDITS[edits[r - 1]](w, i)
+            handed_out = []
+        for k, (q, s) in enumerate(items):
+            f = evaluate_once(q, s, source_info, handed_out)
+            if f is not None:
+                return k, r, f
+    return None
+
+
+def repeat_what(r, edits, f):
+    if r == 0:
+        return "first evaluation: " + f
+    return "evaluation %d of the same text, after the words returned earlier were edited in place (%s): %s" % (
+        r + 1, ", ".join(edits[:r]), f)
+
+
+def repeat_case(items, edits, source_info, k):
+    return {"stream": "repeat", "items": [[q, s] for q, s in items], "edits": list(edits), "source_info": source_info,
+            "quote": items[k][0], "string": items[k][1]}
+
+
+def repeated_stream(ctx):
+    rng = ctx.rng
+    alphabet = CLASSES + EXOTIC + ["b", "\\\\", "\\'", 3 * "'", 3 * '"']
+    pool = ["".join(t) for n in range(3) for t in itertools.product(CLASSES, repeat=n)]
+    for b in range(ctx.scale(60, 600, 300)):
+        if ctx.time_left() < 30:
+            ctx.notes.append("repeated-evaluation stream stopped early on time budget")
+            break
+        items = []
+        for _ in range(rng.choice([1, 1, 2, 8, 40])):
+            if rng.random() < 0.5:
+                s = rng.choice(pool)
+            else:
+                s = "".join(rng.choice(alphabet) for _ in range(rng.randint(0, rng.choice([1, 3, 8, 40]))))
+            items.append((rng.choice(STYLES), s))
+        if rng.random() < 0.3:  # the same text more than once inside one batch
+            items.append(items[0])
+        edits = [rng.choice(sorted(EDITS)) for _ in range(rng.choice([1, 1, 2, 3]))]
+        source_info = SOURCE_INFOS[b % len(SOURCE_INFOS)]
+        for q, s in items:
+            ctx.case(("repeat", q, s, tuple(edits), source_info), nontrivial=len(s) > 0)
+        ctx.count("impl_only_repeat_batches")
+        ctx.count("impl_only_repeat_evaluations", len(items) * (len(edits) + 1))
+        res = observe_repeated(items, edits, source_info)
+        if res is not None:
+            k, r, f = res
+            ctx.fail(repeat_case(items, edits, source_info, k), repeat_what(r, edits, f))
+    ctx.notes.append("impl-only stream: %d batches of (style, string) evaluated repeatedly in one process through word_iterator / "
+                     "tokenize_value_literal / parse, the returned words edited in place between the evaluations"
+                     % ctx.counts.get("impl_only_repeat_batches", 0))
+
+
 def run(ctx):
+    repeated_stream(ctx)
     cases, reqs, impls = [], [], []
     for s, do_corr in strings(ctx):
         if ctx.time_left() < 20:
@@ -106,11 +243,70 @@ def run(ctx):
 
 def replay(payload):
     c = payload["failure"]["case"]
+    if c.get("stream") == "repeat":
+        return observe_repeated([tuple(x) for x in c["items"]], c["edits"], c["source_info"]) is None
     return observe(c["quote"], c["string"]) is None
+
+
+def fresh_result(items, edits, source_info):
+    """observe_repeated in a FRESH interpreter: a failing input of this stream is a sequence of calls starting from process
+    start (that is how --replay runs it), so a candidate must not be judged in a process whose earlier calls may have left
+    state behind"""
+    import json, os, subprocess, sys
+    here = os.path.dirname(os.path.abspath(__file__))
+    code = ("import sys, json; sys.path[:0] = [%r, %r]; import C03; d = json.load(sys.stdin); "
+            "print(json.dumps(C03.observe_repeated([tuple(x) for x in d[0]], d[1], d[2])))" % (os.path.dirname(here), here))
+    out = subprocess.run([sys.executable, "-c", code], input=json.dumps([[list(x) for x in items], edits, source_info]),
+                         capture_output=True, text=True, timeout=60)
+    return json.loads(out.stdout.strip().splitlines()[-1])
+
+
+def shrink_repeated(f):
+    c = f["case"]
+    items, edits, si = [tuple(x) for x in c["items"]], list(c["edits"]), c["source_info"]
+    budget = [60]
+
+    def fails(it, ed):
+        if budget[0] <= 0:
+            return False
+        budget[0] -= 1
+        return fresh_result(it, ed, si) is not None
+    if not fails(items, edits):  # needs the earlier calls of the run as well: keep as found
+        return f
+    changed = True
+    while changed:
+        changed = False
+        for i in range(len(items)):  # drop items
+            t = items[:i] + items[i + 1:]
+            if t and fails(t, edits):
+                items, changed = t, True
+                break
+        if changed:
+            continue
+        for i in range(len(edits)):  # drop edits
+            t = edits[:i] + edits[i + 1:]
+            if fails(items, t):
+                edits, changed = t, True
+                break
+        if changed:
+            continue
+        for k, (q, s) in enumerate(items):  # shorten strings
+            for i in range(len(s)):
+                t = items[:k] + [(q, s[:i] + s[i + 1:])] + items[k + 1:]
+                if fails(t, edits):
+                    items, changed = t, True
+                    break
+            if changed:
+                break
+    k, r, what = fresh_result(items, edits, si)
+    return {"case": repeat_case(items, edits, si, k), "what": repeat_what(r, edits, what), "finding": None,
+            "model_violates": None}
 
 
 def shrink(f):
     c = f["case"]
+    if c.get("stream") == "repeat":
+        return shrink_repeated(f)
     q, s = c["quote"], c["string"]
     changed = True
     while changed:
